@@ -1,0 +1,528 @@
+//! Verification shim (only compiled with `--cfg pricelevel_verif`).
+//!
+//! Drop-in wrappers for the shared objects of a price level (atomics, the id -> order map, the
+//! ticket queue). Every operation reports to an optional process-wide hook before and after it
+//! touches the real object, so that an external deterministic scheduler can decide which thread
+//! performs the next shared-memory operation and can log it. With no hook installed the
+//! wrappers are plain pass-throughs.
+
+use std::collections::VecDeque;
+use std::fmt::Debug;
+use std::hash::Hash;
+pub use std::sync::atomic::Ordering;
+use std::sync::atomic::AtomicUsize as StdAtomicUsize;
+use std::sync::{Arc, Mutex, RwLock};
+
+/// Kind of shared object an event refers to.
+#[derive(Debug, Clone, Copy, PartialEq, Eq)]
+pub enum Kind {
+    /// `AtomicU64` / `AtomicUsize`
+    Atomic,
+    /// the id -> order map
+    Map,
+    /// the ticket queue
+    Queue,
+}
+
+/// One operation on one shared object.
+#[derive(Debug, Clone)]
+pub struct Event {
+    /// unique id of the object (creation order, process wide)
+    pub oid: usize,
+    /// what kind of object
+    pub kind: Kind,
+    /// operation name (`load`, `fetch_add`, `insert`, `pop`, ...)
+    pub op: &'static str,
+    /// rendered argument
+    pub arg: String,
+}
+
+/// Receiver of events.
+pub trait Hook: Send + Sync {
+    /// called before the operation is performed (a scheduler may block here)
+    fn before(&self, ev: &Event);
+    /// called after the operation with its rendered result
+    fn after(&self, ev: &Event, res: &str);
+}
+
+static HOOK: RwLock<Option<Arc<dyn Hook>>> = RwLock::new(None);
+static NEXT_OID: StdAtomicUsize = StdAtomicUsize::new(0);
+
+/// Install or remove the process-wide hook.
+pub fn set_hook(h: Option<Arc<dyn Hook>>) {
+    *HOOK.write().unwrap() = h;
+}
+
+/// Next object id that will be handed out (lets a harness bracket a constructor).
+pub fn next_oid() -> usize {
+    NEXT_OID.load(Ordering::SeqCst)
+}
+
+fn hook() -> Option<Arc<dyn Hook>> {
+    HOOK.read().unwrap().clone()
+}
+
+fn new_oid() -> usize {
+    NEXT_OID.fetch_add(1, Ordering::SeqCst)
+}
+
+fn step<R>(
+    oid: usize,
+    kind: Kind,
+    op: &'static str,
+    arg: String,
+    f: impl FnOnce() -> R,
+    show: impl FnOnce(&R) -> String,
+) -> R {
+    match hook() {
+        None => f(),
+        Some(h) => {
+            let ev = Event { oid, kind, op, arg };
+            h.before(&ev);
+            let r = f();
+            h.after(&ev, &show(&r));
+            r
+        }
+    }
+}
+
+macro_rules! atomic_wrapper {
+    ($name:ident, $std:ty, $prim:ty) => {
+        /// Instrumented atomic.
+        #[derive(Debug)]
+        pub struct $name {
+            oid: usize,
+            inner: $std,
+        }
+        impl $name {
+            /// see std
+            pub fn new(v: $prim) -> Self {
+                Self {
+                    oid: new_oid(),
+                    inner: <$std>::new(v),
+                }
+            }
+            /// object id
+            pub fn oid(&self) -> usize {
+                self.oid
+            }
+            /// read without generating an event
+            pub fn peek(&self) -> $prim {
+                self.inner.load(Ordering::SeqCst)
+            }
+            /// see std
+            pub fn into_inner(self) -> $prim {
+                self.inner.into_inner()
+            }
+            /// see std
+            pub fn get_mut(&mut self) -> &mut $prim {
+                self.inner.get_mut()
+            }
+            /// see std
+            pub fn load(&self, o: Ordering) -> $prim {
+                step(
+                    self.oid,
+                    Kind::Atomic,
+                    "load",
+                    String::new(),
+                    || self.inner.load(o),
+                    |r| r.to_string(),
+                )
+            }
+            /// see std
+            pub fn store(&self, v: $prim, o: Ordering) {
+                step(
+                    self.oid,
+                    Kind::Atomic,
+                    "store",
+                    v.to_string(),
+                    || self.inner.store(v, o),
+                    |_| String::new(),
+                )
+            }
+            /// see std
+            pub fn swap(&self, v: $prim, o: Ordering) -> $prim {
+                step(
+                    self.oid,
+                    Kind::Atomic,
+                    "swap",
+                    v.to_string(),
+                    || self.inner.swap(v, o),
+                    |r| r.to_string(),
+                )
+            }
+            /// see std
+            pub fn fetch_add(&self, v: $prim, o: Ordering) -> $prim {
+                step(
+                    self.oid,
+                    Kind::Atomic,
+                    "fetch_add",
+                    v.to_string(),
+                    || self.inner.fetch_add(v, o),
+                    |r| r.to_string(),
+                )
+            }
+            /// see std
+            pub fn fetch_sub(&self, v: $prim, o: Ordering) -> $prim {
+                step(
+                    self.oid,
+                    Kind::Atomic,
+                    "fetch_sub",
+                    v.to_string(),
+                    || self.inner.fetch_sub(v, o),
+                    |r| r.to_string(),
+                )
+            }
+            /// see std
+            pub fn fetch_max(&self, v: $prim, o: Ordering) -> $prim {
+                step(
+                    self.oid,
+                    Kind::Atomic,
+                    "fetch_max",
+                    v.to_string(),
+                    || self.inner.fetch_max(v, o),
+                    |r| r.to_string(),
+                )
+            }
+            /// see std
+            pub fn fetch_min(&self, v: $prim, o: Ordering) -> $prim {
+                step(
+                    self.oid,
+                    Kind::Atomic,
+                    "fetch_min",
+                    v.to_string(),
+                    || self.inner.fetch_min(v, o),
+                    |r| r.to_string(),
+                )
+            }
+            /// see std
+            pub fn compare_exchange(
+                &self,
+                cur: $prim,
+                new: $prim,
+                s: Ordering,
+                f: Ordering,
+            ) -> Result<$prim, $prim> {
+                step(
+                    self.oid,
+                    Kind::Atomic,
+                    "compare_exchange",
+                    format!("{cur},{new}"),
+                    || self.inner.compare_exchange(cur, new, s, f),
+                    |r| format!("{r:?}"),
+                )
+            }
+            /// see std (never fails spuriously here)
+            pub fn compare_exchange_weak(
+                &self,
+                cur: $prim,
+                new: $prim,
+                s: Ordering,
+                f: Ordering,
+            ) -> Result<$prim, $prim> {
+                step(
+                    self.oid,
+                    Kind::Atomic,
+                    "compare_exchange",
+                    format!("{cur},{new}"),
+                    || self.inner.compare_exchange(cur, new, s, f),
+                    |r| format!("{r:?}"),
+                )
+            }
+            /// see std; one event per attempt (load, then compare_exchange)
+            pub fn fetch_update<F>(
+                &self,
+                set_order: Ordering,
+                fetch_order: Ordering,
+                mut f: F,
+            ) -> Result<$prim, $prim>
+            where
+                F: FnMut($prim) -> Option<$prim>,
+            {
+                let mut prev = self.load(fetch_order);
+                while let Some(next) = f(prev) {
+                    match self.compare_exchange(prev, next, set_order, fetch_order) {
+                        x @ Ok(_) => return x,
+                        Err(next_prev) => prev = next_prev,
+                    }
+                }
+                Err(prev)
+            }
+        }
+        impl Default for $name {
+            fn default() -> Self {
+                Self::new(0)
+            }
+        }
+        impl From<$prim> for $name {
+            fn from(v: $prim) -> Self {
+                Self::new(v)
+            }
+        }
+        impl serde::Serialize for $name {
+            fn serialize<S: serde::Serializer>(&self, s: S) -> Result<S::Ok, S::Error> {
+                self.inner.serialize(s)
+            }
+        }
+        impl<'de> serde::Deserialize<'de> for $name {
+            fn deserialize<D: serde::Deserializer<'de>>(d: D) -> Result<Self, D::Error> {
+                Ok(Self {
+                    oid: new_oid(),
+                    inner: <$std>::deserialize(d)?,
+                })
+            }
+        }
+    };
+}
+
+atomic_wrapper!(AtomicU64, std::sync::atomic::AtomicU64, u64);
+atomic_wrapper!(AtomicUsize, std::sync::atomic::AtomicUsize, usize);
+
+/// Instrumented `DashMap` (the operations the crate uses plus their close relatives).
+#[derive(Debug)]
+pub struct DashMap<K: Eq + Hash, V> {
+    oid: usize,
+    inner: dashmap::DashMap<K, V>,
+}
+
+impl<K: Eq + Hash + Debug + Clone, V> Default for DashMap<K, V> {
+    fn default() -> Self {
+        Self::new()
+    }
+}
+
+impl<K: Eq + Hash + Debug + Clone, V> DashMap<K, V> {
+    /// see dashmap
+    pub fn new() -> Self {
+        Self {
+            oid: new_oid(),
+            inner: dashmap::DashMap::new(),
+        }
+    }
+    /// see dashmap
+    pub fn with_capacity(n: usize) -> Self {
+        Self {
+            oid: new_oid(),
+            inner: dashmap::DashMap::with_capacity(n),
+        }
+    }
+    /// object id
+    pub fn oid(&self) -> usize {
+        self.oid
+    }
+    /// the real map, no event
+    pub fn raw(&self) -> &dashmap::DashMap<K, V> {
+        &self.inner
+    }
+    /// see dashmap
+    pub fn insert(&self, k: K, v: V) -> Option<V> {
+        let arg = format!("{k:?}");
+        step(
+            self.oid,
+            Kind::Map,
+            "insert",
+            arg,
+            || self.inner.insert(k, v),
+            |r| r.is_some().to_string(),
+        )
+    }
+    /// see dashmap
+    pub fn remove(&self, k: &K) -> Option<(K, V)> {
+        step(
+            self.oid,
+            Kind::Map,
+            "remove",
+            format!("{k:?}"),
+            || self.inner.remove(k),
+            |r| r.is_some().to_string(),
+        )
+    }
+    /// see dashmap
+    pub fn remove_if(&self, k: &K, f: impl FnOnce(&K, &V) -> bool) -> Option<(K, V)> {
+        step(
+            self.oid,
+            Kind::Map,
+            "remove",
+            format!("{k:?}"),
+            || self.inner.remove_if(k, f),
+            |r| r.is_some().to_string(),
+        )
+    }
+    /// see dashmap
+    pub fn get(&self, k: &K) -> Option<dashmap::mapref::one::Ref<'_, K, V>> {
+        step(
+            self.oid,
+            Kind::Map,
+            "get",
+            format!("{k:?}"),
+            || self.inner.get(k),
+            |r| r.is_some().to_string(),
+        )
+    }
+    /// see dashmap
+    pub fn get_mut(&self, k: &K) -> Option<dashmap::mapref::one::RefMut<'_, K, V>> {
+        step(
+            self.oid,
+            Kind::Map,
+            "get_mut",
+            format!("{k:?}"),
+            || self.inner.get_mut(k),
+            |r| r.is_some().to_string(),
+        )
+    }
+    /// see dashmap
+    pub fn contains_key(&self, k: &K) -> bool {
+        step(
+            self.oid,
+            Kind::Map,
+            "get",
+            format!("{k:?}"),
+            || self.inner.contains_key(k),
+            |r| r.to_string(),
+        )
+    }
+    /// see dashmap
+    pub fn iter(&self) -> dashmap::iter::Iter<'_, K, V> {
+        step(
+            self.oid,
+            Kind::Map,
+            "iter",
+            String::new(),
+            || self.inner.iter(),
+            |_| String::new(),
+        )
+    }
+    /// see dashmap
+    pub fn len(&self) -> usize {
+        step(
+            self.oid,
+            Kind::Map,
+            "len",
+            String::new(),
+            || self.inner.len(),
+            |r| r.to_string(),
+        )
+    }
+    /// see dashmap
+    pub fn is_empty(&self) -> bool {
+        step(
+            self.oid,
+            Kind::Map,
+            "is_empty",
+            String::new(),
+            || self.inner.is_empty(),
+            |r| r.to_string(),
+        )
+    }
+    /// see dashmap
+    pub fn clear(&self) {
+        step(
+            self.oid,
+            Kind::Map,
+            "clear",
+            String::new(),
+            || self.inner.clear(),
+            |_| String::new(),
+        )
+    }
+    /// see dashmap
+    pub fn retain(&self, f: impl FnMut(&K, &mut V) -> bool) {
+        step(
+            self.oid,
+            Kind::Map,
+            "retain",
+            String::new(),
+            || self.inner.retain(f),
+            |_| String::new(),
+        )
+    }
+}
+
+/// Instrumented `SegQueue` with an observable shadow copy.
+#[derive(Debug)]
+pub struct SegQueue<T> {
+    oid: usize,
+    inner: crossbeam::queue::SegQueue<T>,
+    shadow: Mutex<VecDeque<T>>,
+}
+
+impl<T: Clone + Debug> Default for SegQueue<T> {
+    fn default() -> Self {
+        Self::new()
+    }
+}
+
+impl<T: Clone + Debug> SegQueue<T> {
+    /// see crossbeam
+    pub fn new() -> Self {
+        Self {
+            oid: new_oid(),
+            inner: crossbeam::queue::SegQueue::new(),
+            shadow: Mutex::new(VecDeque::new()),
+        }
+    }
+    /// object id
+    pub fn oid(&self) -> usize {
+        self.oid
+    }
+    /// current content, head first, no event
+    pub fn shadow(&self) -> Vec<T> {
+        self.shadow.lock().unwrap().iter().cloned().collect()
+    }
+    /// see crossbeam
+    pub fn push(&self, v: T) {
+        let arg = format!("{v:?}");
+        step(
+            self.oid,
+            Kind::Queue,
+            "push",
+            arg,
+            || {
+                let mut s = self.shadow.lock().unwrap();
+                s.push_back(v.clone());
+                self.inner.push(v)
+            },
+            |_| String::new(),
+        )
+    }
+    /// see crossbeam
+    pub fn pop(&self) -> Option<T> {
+        step(
+            self.oid,
+            Kind::Queue,
+            "pop",
+            String::new(),
+            || {
+                let mut s = self.shadow.lock().unwrap();
+                let r = self.inner.pop();
+                if r.is_some() {
+                    s.pop_front();
+                }
+                r
+            },
+            |r| format!("{r:?}"),
+        )
+    }
+    /// see crossbeam
+    pub fn len(&self) -> usize {
+        step(
+            self.oid,
+            Kind::Queue,
+            "len",
+            String::new(),
+            || self.inner.len(),
+            |r| r.to_string(),
+        )
+    }
+    /// see crossbeam
+    pub fn is_empty(&self) -> bool {
+        step(
+            self.oid,
+            Kind::Queue,
+            "is_empty",
+            String::new(),
+            || self.inner.is_empty(),
+            |r| r.to_string(),
+        )
+    }
+}
